@@ -416,6 +416,18 @@ func init() {
 		"reflect.PtrTo":     R(func(in *Interp, a []Value, _ *frame) Value { return in.rtI(types.NewPointer(rtOf(a[0]))) }),
 		"reflect.SliceOf":   R(func(in *Interp, a []Value, _ *frame) Value { return in.rtI(types.NewSlice(rtOf(a[0]))) }),
 		"reflect.MapOf":     R(func(in *Interp, a []Value, _ *frame) Value { return in.rtI(types.NewMap(rtOf(a[0]), rtOf(a[1]))) }),
+		"reflect.StructOf": R(func(in *Interp, a []Value, _ *frame) Value {
+			var vars []*types.Var
+			var tags []string
+			for _, e := range a[0].(sliceV).elems() {
+				sf := e.(structV)
+				name := mustStr(sf[0], "StructOf field name")
+				ft := rtOf(sf[2])
+				vars = append(vars, types.NewField(0, nil, name, ft, false))
+				tags = append(tags, mustStr(sf[3], "StructOf tag"))
+			}
+			return in.rtI(types.NewStruct(vars, tags))
+		}),
 		"reflect.Indirect": R(func(in *Interp, a []Value, _ *frame) Value {
 			r := asR(a[0])
 			if r.valid() {
